@@ -245,6 +245,8 @@ func verifPairs(aln []feat.Pair) ([]*featPair, error) {
 func verifCheck(al verifAligner, mod verifModel, rw, qw string) (c08, c09 error) {
 	defer func() {
 		if e := recover(); e != nil {
+			// no alignment was returned at all: neither clause holds
+			c08 = fmt.Errorf("panic: %v", e)
 			c09 = fmt.Errorf("panic: %v", e)
 		}
 	}()
